@@ -4,8 +4,8 @@ from ._generic import make, STD_TRUST
 globals().update(
     make(
         pid="C20",
-        props=["JaqalProofs/Props/C20.lean"],
-        targets=["JaqalProofs.Props.C20"],
+        props=["JaqalProofs/Props/C20.lean", "JaqalProofs/Props/C20Autoload.lean"],
+        targets=["JaqalProofs.Props.C20", "JaqalProofs.Props.C20Autoload"],
         diffs=[
             ("harness.agents.gen_diff", 2500, 20000),
             # circuit-level oracles only: C20 speaks about circuits; node-level comparisons across classes are measured, not judged
